@@ -57,7 +57,7 @@ CHECKS['C01'] = (
     SEARCH_NOTE, '§3 C01')
 CHECKS['C02'] = (
     'structural validator over every returned tree, re-querying the grammar callable, membership in the reference enumeration; glue UB / '
-    'swallowed-exception flags; ASan/UBSan',
+    'swallowed-exception flags; ASan/UBSan builds; a share of the workload under valgrind memcheck (uninitialised reads)',
     '1-best and n-best lists; leaves must be the input token objects with admitted tags, nodes grammar results, allowed root, no unary at root.',
     SEARCH_NOTE, '§3 C02')
 CHECKS['C09'] = (
@@ -68,7 +68,7 @@ CHECKS['C10'] = (
     'Sentences small enough to enumerate; k from 1 to #derivations+3; ties included.', SEARCH_NOTE, '§3 C10')
 CHECKS['C16'] = (
     'leaf tags vs an independent must/may statement of the beam; parse/fail flips vs reference over may/must sets; rows built around the beta '
-    'and rank boundaries',
+    'and rank boundaries, flattened and deep-negative rows, n-best, the multiprocessing path, and the real CLI argument parser',
     'Boundary-centred rows, flattened rows, beta 1e-5..0.9, pruning 1..60, filter on/off.', SEARCH_NOTE, '§3 C16')
 CHECKS['C07'] = (
     'real to_string on deep copies -> independent decoder per format -> structural comparison with the source derivation (words, shape, '
@@ -86,8 +86,9 @@ CHECKS['C20'] = (
 CHECKS['C12'] = (
     'parser half: node label/symbol/head flag vs the grammar results for the node\'s children in table grammars with unique labels (real '
     'search, plain + ASan); reader half: trees read by the real readers / Tree.of_nltk_tree judged against the active grammar',
-    'Same-category-different-label results, several differently labelled unary targets, left/right/mixed heads; auto, xml, jigg_xml, ptb and '
-    'nltk-style input for both languages; underivable nodes must be unk.', SEARCH_NOTE, '§3 C12a / §5 C12b')
+    'Same-category-different-label results (up to 4 per pair), several differently labelled unary targets, left/right/mixed heads, n-best; auto '
+    '(also with foreign head fields), xml, jigg_xml, ptb and nltk-style input for both languages and for one process switching languages; '
+    'underivable nodes must be unk.', SEARCH_NOTE, '§3 C12a / §5 C12b')
 CHECKS['C15'] = (
     'real to_string(xml)->real read_xml, real to_string(jigg_xml)->real read_jigg_xml (ja), integrity monitor over every Jigg document, real '
     'build_ccg_tree isomorphism and real normalize_tokens',
@@ -104,7 +105,8 @@ CHECKS['C11'] = (
     'history/schedule differencing of the real depccg.parsing.run: batch vs each sentence alone in a fresh call vs permutation vs subset '
     '(in-process, plain + ASan), real multiprocessing path with injected per-worker delays vs in-process result, shape-mismatch inputs '
     'with a parse_sentence call counter',
-    'Batches mixing parseable, unparseable, over-long, budget-exhausted and zero-token sentences; processes 1..8, chunk sizes 1..20.',
+    'Batches mixing parseable, unparseable, over-long, budget-exhausted and zero-token sentences, narrow beams, failure legitimacy at the '
+    'max_length boundary, iter_parse_results pairing; processes 1..8, chunk sizes 1..20.',
     SEARCH_NOTE + ' Schedules are sampled.', '§3 C11')
 
 NOT_YET = {}
